@@ -19,6 +19,7 @@ RULE = ("(a) structure-aware corruption of valid files built by the independent 
         "sector data; truncation; zeroed runs) of saved packages, judged on the implementation only.  Debug and (thorough) "
         "Release.  non-trivial = the damaged file still opens or fails after the container was parsed; distinct = distinct "
         "command lists")
+RULE = RULE + ("  (c) relabelled code pages: the pool header and the summary's code page property set to every supported page (and some unsupported ones) over bytes that are not ASCII.")
 ASSUMPTIONS = ["cfb's parser of the sector-level file format is a dependency outside the model: byte-level damage is exercised on "
                "the implementation only", "hangs and memory exhaustion are detected by the driver's time and address-space limits, not by a theorem"]
 IMPL_MEM_KB = 3_000_000
@@ -148,6 +149,25 @@ def gen_cases(rng, tier, info):
         clsid, ents, _ = msienc.encode_db(rng, 0, 65001, tables, BASE_SUMMARY, {}, long_refs=False)
         cases.append(Case("oddrange-%d" % k, [msienc.enc_open_raw(clsid, ents)] + probes +
                           ["(update %s ((%s %s)) ())" % (X.enc_str("T"), X.enc_str("N"), X.enc_value(5)), "(flush)", "(rows)"], ("struct",)))
+    # text stored under one code page while the file names another: the pool header and the summary's code page
+    # property relabelled to every supported page (and a few unsupported ones) over bytes that are not ASCII -- whatever
+    # the label, the bytes decode to something (replacement characters) or the file is refused; nothing panics
+    import psdec
+    tables = {"T": (T_COLS, [[1, "\u00e9\u6f22", 5], [2, "shared", None], [7, "\u00ff\u00fe", -3]]), "U": (U_COLS, [["\u00fc", 1], ["shared", None]])}
+    summ = [(2, 30, "T\u00eftle \u6f22"), (4, 30, "Ann\u00e9"), (6, 30, "\u00ff"), (15, 3, 2), (7, 30, "x64;1033")]
+    pages = sorted(k for k in psdec.PY_CODEC if k) + [437, 1200, 12000, 54936, 65000]
+    for cp in pages:
+        clsid, ents, _ = msienc.encode_db(rng, 0, 65001, tables, summ, {}, long_refs=False)
+        ents = [(n, bytearray(b)) for n, b in ents]
+        names = [n for n, _ in ents]
+        pi = [i for i, n in enumerate(names) if msidec.decode_name(n)[1] and msidec.decode_name(n)[0] == "_StringPool"][0]
+        si = names.index("\u0005SummaryInformation")
+        relabelled = [(n, bytes(b)) for n, b in ents]
+        relabelled[pi] = (names[pi], struct.pack("<I", cp) + bytes(ents[pi][1][4:]))
+        cases.append(Case("relabel-pool-%d" % cp, [msienc.enc_open_raw(clsid, relabelled).replace("(open_raw", "(x_open_raw", 1)] + probes, ("relabel", "impl_only")))
+        relabelled = [(n, bytes(b)) for n, b in ents]
+        relabelled[si] = (names[si], msienc.encode_summary(rng, [(1, 2, cp - 0x10000 if cp >= 0x8000 else cp)] + summ, 65001))
+        cases.append(Case("relabel-summary-%d" % cp, [msienc.enc_open_raw(clsid, relabelled).replace("(open_raw", "(x_open_raw", 1)] + probes, ("relabel", "impl_only")))
     # byte-level damage below the stream level (implementation only)
     n_hist = 6 if tier == "quick" else 40
     per = 120 if tier == "quick" else 1500
